@@ -11,9 +11,15 @@
     parsed left-hand side;
   * the expression-level functions return no other kind of error.
 
-  Proofs: Calc/Proofs/ParseErr.lean (one mutual induction on fuel over the 22 parser functions).
+  * exactness (`C14_parse_pos_exact…`): the reported token is precisely the first token the
+    parser did not consume — the error is a function of the consumed prefix and the tag of the
+    next token only, and its position is that of whatever token stands there.
+
+  Proofs: Calc/Proofs/ParseErr.lean, Calc/Proofs/ParseErrLocal.lean (one mutual induction on fuel
+  over the 22 parser functions each; the second uses the ok-locality of Calc/Proofs/ParseLocality).
 -/
 import Calc.Proofs.ParseErr
+import Calc.Proofs.ParseErrLocal
 namespace Calc
 variable {S : Type}
 
@@ -128,6 +134,71 @@ theorem C14_parse_pos_program_expected (ts : List (Tok S)) (e : PErr) (h : parse
   · rw [hk'] at hk; simp at hk
   · rw [hk'] at hk; simp at hk
 
+/-! ## Exactness: the reported token is the first unconsumed one -/
+
+/-- **C14 (expected … but found, exact).**  If `expression` fails with an "expected … but found"
+    error `e`, the input splits as `c ++ rest` such that
+    * `e` carries the position of the first token of `rest` (end of input iff `rest = []`), and
+    * `c` is exactly what the parser consumed and the first token of `rest` exactly what it
+      rejected: on `c ++ rest'`, for *any* `rest'` whose first token has the same tag as that of
+      `rest` (so `rest' = []` iff `rest = []`), `expression` fails with the same kind and info,
+      at the position of the first token of `rest'`.
+    So the error depends on nothing after the offending token, and moving the offending token
+    (changing its line/column) moves the reported position with it: the reported token is the
+    one at index `c.length`, not an earlier, already consumed one and not a later one. -/
+theorem C14_parse_pos_exact (f : Nat) (ts : List (Tok S)) (e : PErr)
+    (h : pExpression f ts = .err e)
+    (hk : e.kind = .expectedExpression ∨ e.kind = .expectedUnit ∨ e.kind = .expectedDelimeter ∨
+      e.kind = .expectedToken) :
+    ∃ c rest, ts = c ++ rest ∧
+      e.pos = rest.head?.map (fun t => (t.line, t.col)) ∧
+      ∀ rest', rest'.head?.map Tok.tag = rest.head?.map Tok.tag →
+        pExpression f (c ++ rest') =
+          .err ⟨e.kind, rest'.head?.map (fun t => (t.line, t.col)), e.info⟩ :=
+  (errLocalAt f).expression ts e h (by rcases hk with hk | hk | hk | hk <;> rw [hk] <;> rfl)
+
+/-- **C14 (exact, the two cases).**  The same, read by cases: either the error says "end of
+    input"; or it names a token `t` of the input, `ts = c ++ t :: r`, and with `t` replaced by any
+    token `t'` of the same tag and `r` by any `r'` the error is the same but at `t'`. -/
+theorem C14_parse_pos_exact_cases (f : Nat) (ts : List (Tok S)) (e : PErr)
+    (h : pExpression f ts = .err e)
+    (hk : e.kind = .expectedExpression ∨ e.kind = .expectedUnit ∨ e.kind = .expectedDelimeter ∨
+      e.kind = .expectedToken) :
+    e.pos = none ∨
+    (∃ c t r, ts = c ++ t :: r ∧ e.pos = some (t.line, t.col) ∧
+      ∀ t' r', t'.tag = t.tag →
+        pExpression f (c ++ t' :: r') = .err ⟨e.kind, some (t'.line, t'.col), e.info⟩) := by
+  have hl := (errLocalAt f).expression ts e h
+    (by rcases hk with hk | hk | hk | hk <;> rw [hk] <;> rfl)
+  rcases hl.cases with ⟨h0, _⟩ | h1
+  · exact .inl h0
+  · exact .inr h1
+
+/-- **C14 (exact, every level).**  The same for every one of the 22 parser functions
+    (`ErrLocalAt` has one field per function, each concluding `ErrLoc (p f …) ts e`). -/
+theorem C14_parse_pos_exact_all : ∀ f, ErrLocalAt S f := errLocalAt
+
+/-- **C14 (meaning of `ErrLoc`).** -/
+theorem C14_errLoc_iff {α : Type} (p : List (Tok S) → PRes S α) (ts : List (Tok S)) (e : PErr) :
+    ErrLoc p ts e ↔ ∃ c rest, ts = c ++ rest ∧
+      e.pos = rest.head?.map (fun t => (t.line, t.col)) ∧
+      ∀ rest', rest'.head?.map Tok.tag = rest.head?.map Tok.tag →
+        p (c ++ rest') = .err ⟨e.kind, rest'.head?.map (fun t => (t.line, t.col)), e.info⟩ :=
+  ErrLoc.iff p ts e
+
+/-- **C14 (statement, exact).**  An "expected … but found" error of `statement` likewise points
+    exactly at the first token `statement` did not consume. -/
+theorem C14_parse_pos_exact_statement (f : Nat) (ts : List (Tok S)) (e : PErr)
+    (h : pStatement f ts = .err e)
+    (hk : e.kind = .expectedExpression ∨ e.kind = .expectedUnit ∨ e.kind = .expectedDelimeter ∨
+      e.kind = .expectedToken) :
+    ∃ c rest, ts = c ++ rest ∧
+      e.pos = rest.head?.map (fun t => (t.line, t.col)) ∧
+      ∀ rest', rest'.head?.map Tok.tag = rest.head?.map Tok.tag →
+        pStatement f (c ++ rest') =
+          .err ⟨e.kind, rest'.head?.map (fun t => (t.line, t.col)), e.info⟩ :=
+  pStatement_errLoc h (by rcases hk with hk | hk | hk | hk <;> rw [hk] <;> rfl)
+
 /-! ## The hypotheses are satisfiable -/
 
 section Examples
@@ -171,6 +242,14 @@ example : parse [tk (.number 1) 1, tk (.number 1) 2]
 /-- `1 \n delete 1 \n` — a whole program: cannot delete, at the `delete` of column 3 -/
 example : parse [tk (.number 1) 1, tk .newline 2, tk .delete 3, tk (.number 1) 4, tk .newline 5]
     = .err ⟨.cannotDelete, some (1, 3), []⟩ := by rfl
+
+/-- the hypotheses of `C14_parse_pos_exact` hold on `1 + )`, and its conclusion there: with
+    `c = [1, +]`, moving `)` to line 7 column 9 moves the reported position -/
+example : pExpression 20 [tk (.number 1) 1, tk .plus 2, tk .rparen 3]
+      = .err ⟨.expectedExpression, some (1, 3), []⟩ ∧
+    (⟨.expectedExpression, some (1, 3), []⟩ : PErr).kind = .expectedExpression ∧
+    pExpression 20 ([tk (.number 1) 1, tk .plus 2] ++ [⟨.rparen, [], 7, 9⟩, tk .star 4])
+      = .err ⟨.expectedExpression, some (7, 9), []⟩ := ⟨rfl, rfl, rfl⟩
 
 end Examples
 
